@@ -203,6 +203,8 @@ func checkC07(p *Prog, l *Ledger) {
 	checkTypedNil(p, l, fns, reach)
 	checkEnvConstruction(p, l)
 	checkRecursion(p, l, reach)
+	// Environment.Get/Assign walk along Parent: the chain is finite because Parent is fixed at construction (shared with C03)
+	l.As(map[string]string{"C03/S1-environment-shape": "C07/P8-recursion/env-chain"}, func() { checkEnvConstructors(p, l) })
 	lem.finish()
 	// vacuity floors (anchor families that must resolve)
 	if counts["P1"] < 20 {
